@@ -1,0 +1,53 @@
+//! Channel stand-ins for the connection task (guard: `rdest_verif`).
+//!
+//! `oneshot` is tokio's oneshot channel whose receiving end can be told to hand a reply over a little
+//! later (in virtual time): an `.await` may always take longer, so this only selects among the
+//! interleavings the real code already has - the ones in which the manager gets on with other commands
+//! before the connection task acts on the reply.
+
+use std::sync::Mutex;
+
+static REPLY_DELAY: Mutex<(u64, usize)> = Mutex::new((0, 0));
+
+/// The next `count` replies received by connection tasks are acted upon `ms` milliseconds later.
+pub fn delay_replies(ms: u64, count: usize) {
+    *REPLY_DELAY.lock().unwrap() = (ms, count);
+}
+
+fn take_delay() -> u64 {
+    let mut d = REPLY_DELAY.lock().unwrap();
+    if d.1 == 0 {
+        return 0;
+    }
+    d.1 -= 1;
+    d.0
+}
+
+pub mod oneshot {
+    pub use tokio::sync::oneshot::{error, Sender};
+    use std::future::{Future, IntoFuture};
+    use std::pin::Pin;
+
+    pub struct Receiver<T>(tokio::sync::oneshot::Receiver<T>);
+
+    pub fn channel<T>() -> (Sender<T>, Receiver<T>) {
+        let (tx, rx) = tokio::sync::oneshot::channel();
+        (tx, Receiver(rx))
+    }
+
+    impl<T: Send + 'static> IntoFuture for Receiver<T> {
+        type Output = Result<T, error::RecvError>;
+        type IntoFuture = Pin<Box<dyn Future<Output = Self::Output> + Send>>;
+
+        fn into_future(self) -> Self::IntoFuture {
+            Box::pin(async move {
+                let res = self.0.await;
+                let ms = super::take_delay();
+                if ms > 0 {
+                    tokio::time::sleep(std::time::Duration::from_millis(ms)).await;
+                }
+                res
+            })
+        }
+    }
+}
